@@ -219,7 +219,11 @@ class SuitObject(PrettyPrintHelperMixin):
     @classmethod
     def from_cbor(cls, cbstr: bytes) -> SuitObject:
         """Restore SUIT representation from passed CBOR."""
-        return cls(cls.deserialize_cbor(cbstr))
+        value = cls.deserialize_cbor(cbstr)
+        if cls.serialize_cbor(value) != cbstr:
+            # Trailing bytes or non-canonical form: the data is not the encoding of this single item
+            raise ValueError(f"Unable to create {cls.__name__} from {cbstr.hex()}")
+        return cls(value)
 
     def to_cbor(self) -> bytes:
         """Dump SUIT representation to cbor."""
